@@ -1021,6 +1021,22 @@ class PathEval:
                         self.assign(st, t["dest"], item, bb, events)
                         bb = t["target"]
                         continue
+                if self.desugar and len(args) == 2 and t["target"] is not None and norm_path(path).endswith("<impl [T]>::split_at") and "str" not in path:
+                    # slice.split_at(i) evaluated as the pair (&slice[..i], &slice[i..]) it is defined as (either half panics exactly when
+                    # i > len, like split_at itself), so that every rule that understands slicing understands this spelling too
+                    IDX = "core::slice::index::<impl std::ops::Index<I> for [T]>::index"
+                    ety = (tuple(f.get("gargs", ())) or ("?",))[0]
+                    parts = []
+                    for rname, fld in (("RangeTo", "end"), ("RangeFrom", "start")):
+                        rg = ("agg", "adt", "std::ops::" + rname, rname, (args[1],), (fld,))
+                        ga = (ety, "std::ops::%s<usize>" % rname)
+                        iv = ("call", IDX, ga, (args[0], rg), None if is_pure(IDX) else bb)
+                        fd = dict(f, path=IDX, gargs=list(ga), full="core::slice::index::<impl std::ops::Index<std::ops::%s<usize>> for [%s]>::index" % (rname, ety))
+                        events = events + [Event("call", bb, path=IDX, name=norm_path(IDX), full=fd["full"], func=fd, args=(args[0], rg), dest=None, term=iv, diverges=False)]
+                        parts.append(("ref", iv))
+                    self.assign(st, t["dest"], ("agg", "tuple", None, None, tuple(parts), ()), bb, events)
+                    bb = t["target"]
+                    continue
                 if path.endswith("box_assume_init_into_vec_unsafe"):
                     # `vec![a, b]` (current expansion: the array is written into an uninitialised box, which is then turned into a Vec):
                     # evaluated as the older expansion `<[_]>::into_vec(Box::new([a, b]))`, i.e. into_vec([a, b])
